@@ -38,7 +38,7 @@ def run(tier, seed):
     for rec in recs:
         probs, tr = EB.replay_batch_behaviour(rec, d, n)
         for (clause, detail) in probs:
-            if clause == "replay.batch.draw_kind_range":
+            if clause in ("replay.batch.draw_range", "replay.batch.not_followed"):
                 nskip += 1          # the draw ranges are judged by C04; the behaviour cannot be followed here
                 continue
             ctx.violation(clause, "mode=%s" % rec["mode"], detail, {"batch_behaviour": rec, "d": d, "n": n})
